@@ -142,6 +142,7 @@ def check(A):
         S.upgrade_handshake(A, fl, 'C18')
         S.who_may_rules(A, fl, 'C18')
         S.upgrade_exit_state(A, fl, 'C18')
+        R.trigger_event_rules(A, fl, 'C18')
         if A.tier == 'thorough':
             S.poll_rules(A, fl, 'C18')
             S.upgrade_exit_state(A, fl, 'C18')
@@ -149,7 +150,6 @@ def check(A):
             S.ping_task_rules(A, fl, 'C18')
             S.ping_timeout_rules(A, fl, 'C18')
             S.send_rules(A, fl, 'C18')
-            R.trigger_event_rules(A, fl, 'C18')
             R.service_task_rules(A, fl, 'C18')
             R.disconnect_rules(A, fl, 'C18')
             R.api_rules(A, fl, 'C18')
